@@ -38,6 +38,28 @@ class Use:
         return f"<{self.verdict} {self.reason} @{getattr(self.node,'lineno','?')}: {norm(self.node)[:60]}>"
 
 
+def _injective_key(key: ast.AST) -> bool:
+    """a sort key under which two distinct elements cannot compare equal:
+    the element itself, id(e) (possibly through a lookup table), or a tuple
+    containing one of those."""
+    if not isinstance(key, ast.Lambda) or len(key.args.args) != 1:
+        return False
+    v = key.args.args[0].arg
+    b = key.body
+
+    def inj(x) -> bool:
+        t = norm(x)
+        if t == v or t == f"id({v})":
+            return True
+        if isinstance(x, ast.Subscript) and norm(x.slice) in (v, f"id({v})"):
+            return True  # position table indexed by the element / its identity
+        if isinstance(x, ast.Tuple):
+            return any(inj(e) for e in x.elts)
+        return False
+
+    return inj(b)
+
+
 def _is_set_ctor(e: ast.AST) -> bool:
     return isinstance(e, ast.Call) and dotted(e.func) in ("set", "frozenset")
 
@@ -175,6 +197,11 @@ class SetOrder:
         if isinstance(par, ast.Call):
             fn = dotted(par.func)
             if e in par.args or any(k.value is e for k in par.keywords):
+                if fn == "sorted":
+                    key = next((k.value for k in par.keywords if k.arg == "key"), None)
+                    if key is not None and not _injective_key(key):
+                        add("LEAK", "sorted(.., key=K) with a key that can tie: equal keys keep the set's iteration order")
+                        return
                 if fn in SAFE_CALLS:
                     add("SAFE", f"{fn}()")
                     return
@@ -237,7 +264,10 @@ class SetOrder:
                 add("SAFE", "set comprehension over it")
             elif isinstance(comp, (ast.GeneratorExp, ast.ListComp)) and setlike:
                 cp = getattr(comp, "parent", None)
-                if isinstance(cp, ast.Call) and dotted(cp.func) in SAFE_CALLS and comp in cp.args:
+                if isinstance(cp, ast.Call) and dotted(cp.func) == "sorted" and comp in cp.args and any(
+                        k.arg == "key" and not _injective_key(k.value) for k in cp.keywords):
+                    add("LEAK", "sorted(<comprehension over it>, key=K) with a key that can tie: equal keys keep the set's iteration order")
+                elif isinstance(cp, ast.Call) and dotted(cp.func) in SAFE_CALLS and comp in cp.args:
                     add("SAFE", f"{dotted(cp.func)}(comprehension over it)")
                 else:
                     return  # list-from-set; classified as such
